@@ -12,3 +12,4 @@ CONSTANTS
   TopicNames = {"A"}
   MaxOps = 8
   Warm = 0
+  ChurnAt = {}
